@@ -1,13 +1,71 @@
 import LA.Drv.Util
+import LA.Model.MsgType
+import LA.Model.Tables
 
-/-! line-protocol commands of the Tables family (filled in with its model). -/
+/-! line-protocol commands of the Tables family (C20). -/
 namespace LA.Drv.Tables
+open LA
 
 structure State where
   dummy : Unit := ()
 
 def init : State := {}
 
-def cmd (s : State) (_args : List String) : State × String := (s, "bad-op")
+def toNats (b : LA.Drv.Bytes) : LA.Bytes := b.map (·.toNat)
+def ofNats (b : LA.Bytes) : LA.Drv.Bytes := b.map (fun n => UInt8.ofNat n)
+def hexN (b : LA.Bytes) : String := LA.Drv.hex (ofNats b)
+
+def optNat : Option Nat → String
+  | some n => toString n
+  | none => "none"
+
+def optBytes : Option LA.Bytes → String
+  | some b => "some:" ++ hexN b
+  | none => "none"
+
+def cmd (s : State) (args : List String) : State × String :=
+  match args with
+  | ["typename", t] =>
+    match t.toNat? with
+    | some t => (s, hexN (MsgType.typeName t))
+    | none => (s, "bad-op")
+  | ["marshal", t] =>
+    match t.toNat? with
+    | some t => (s, hexN (MsgType.marshalText t))
+    | none => (s, "bad-op")
+  | ["gettype", h] =>
+    match LA.Drv.unhex h with
+    | some b => let n := toNats b
+      if isAscii n then (s, optNat (MsgType.getType n)) else (s, "unmodelled:non-ascii")
+    | none => (s, "bad-op")
+  | ["errnoname", n] =>
+    match n.toNat? with
+    | some n => (s, optBytes (Tables.errnoName n))
+    | none => (s, "bad-op")
+  | ["errnonum", h] =>
+    match LA.Drv.unhex h with
+    | some b => (s, optNat (Tables.errnoNum (toNats b)))
+    | none => (s, "bad-op")
+  | ["archname", n] =>
+    match n.toNat? with
+    | some n => (s, optBytes (Tables.archName n))
+    | none => (s, "bad-op")
+  | ["archcode", h] =>
+    match LA.Drv.unhex h with
+    | some b => (s, optNat (Tables.archCode (toNats b)))
+    | none => (s, "bad-op")
+  | ["sysname", a, n] =>
+    match LA.Drv.unhex a, n.toNat? with
+    | some a, some n => (s, optBytes (Tables.syscallName (toNats a) n))
+    | _, _ => (s, "bad-op")
+  | ["sysnum", a, h] =>
+    match LA.Drv.unhex a, LA.Drv.unhex h with
+    | some a, some b => (s, optNat (Tables.syscallNum (toNats a) (toNats b)))
+    | _, _ => (s, "bad-op")
+  | ["category", t] =>
+    match t.toNat? with
+    | some t => (s, toString (Tables.category t))
+    | none => (s, "bad-op")
+  | _ => (s, "bad-op")
 
 end LA.Drv.Tables
